@@ -52,6 +52,13 @@ fn check_bracket_closed(chars: impl Iterator<Item = char>) -> bool {
     count <= 0
 }
 
+/// Verification hook: the REPL's private completeness test, for exhaustive comparison
+/// with the reader. Exists only when built with `--cfg ruschm_verif`.
+#[cfg(ruschm_verif)]
+pub fn verif_check_bracket_closed(text: &str) -> bool {
+    check_bracket_closed(text.chars())
+}
+
 pub fn run() {
     // currently rust is lack of higher kind type (HKT), so we need write f32 twice
     let it = Interpreter::<f32>::new_with_stdlib();
